@@ -338,5 +338,73 @@ func runC17(outDir string, seed int64, tier string) {
 	}
 	writeCases(filepath.Join(outDir, "cases_expand.v"), header, "ecase", "check_expand", ecases)
 	sum.CaseFiles = append(sum.CaseFiles, "cases_expand.v")
+	id = c17StringTerminals(sum, id)
 	sum.write(outDir, start)
+}
+
+// c17StringTerminals: a terminal written as a double-quoted string denotes the same list as the one
+// written in brackets (under each double_quotes flag): same translation up to variable names, phrase/2
+// recognises exactly that list, generation yields it, a remainder is what is left.
+func c17StringTerminals(sum *runSummary, id int) int {
+	texts := []string{"a", "ab", "abc", "é", "aé", "éa", "aéb", "abé", "日本", "a日b", "ab日本c", "üñx"}
+	for _, flag := range []string{"codes", "chars"} {
+		for _, t := range texts {
+			var es []string
+			for _, c := range t {
+				if flag == "codes" {
+					es = append(es, fmt.Sprint(int(c)))
+				} else {
+					es = append(es, quoteAtom(string(c)))
+				}
+			}
+			br := "[" + strings.Join(es, ",") + "]"
+			str := plEscape(t)
+			p := prolog.New(nil, nil)
+			_ = p.Exec(fmt.Sprintf(":- set_prolog_flag(double_quotes, %s).", flag)) // read before the grammar is
+			prog := fmt.Sprintf("s --> %s.\nb --> %s.\ns2 --> %s, tail.\nb2 --> %s, tail.\ntail --> [].\ntail --> [z], tail.\npb, %s --> [z].\npbb, %s --> [z].\n", str, br, str, br, str, br)
+			desc := map[string]interface{}{"text": fmt.Sprintf("double_quotes=%s: string terminal %s against %s", flag, str, br), "program": prog}
+			sum.Cases[fmt.Sprint(id)] = desc
+			sum.Evaluations++
+			sum.count("dcg:string-terminal")
+			bad := func(what, got string) {
+				sum.Failures = append(sum.Failures, failure{ID: id, Class: "dcg:string-terminal-differs-from-bracket-list", Input: desc, Observed: what + ": " + got, Expected: "as for the list written in brackets"})
+			}
+			if err := p.Exec(prog); err != nil {
+				bad("load", err.Error())
+				id++
+				continue
+			}
+			ask := func(q string) string {
+				out := runQuery(p, 4, []string{"L", "R"}, q)
+				var rows []string
+				for _, a := range out.Answers {
+					rows = append(rows, fmt.Sprint(a["L"], "/", a["R"]))
+				}
+				if out.Err != nil || out.GoErr != "" {
+					rows = append(rows, fmt.Sprint("error ", out.Err, out.GoErr))
+				}
+				return strings.Join(rows, " ; ")
+			}
+			pairs := [][2]string{
+				{"phrase(s, L) .", "phrase(b, L) ."},
+				{"phrase(s, " + br + ") .", "phrase(b, " + br + ") ."},
+				{"phrase(s, " + str + ", R) .", "phrase(b, " + br + ", R) ."},
+				{"phrase(s2, L, R) .", "phrase(b2, L, R) ."},
+				{"phrase(s2, L) .", "phrase(b2, L) ."},
+				{"phrase(" + str + ", L) .", "phrase(" + br + ", L) ."},
+				{"phrase((" + str + ", tail), L, []) .", "phrase((" + br + ", tail), L, []) ."},
+				{"phrase(pb, [z|L], R) .", "phrase(pbb, [z|L], R) ."},
+				{"expand_term((x --> " + str + ", y), T), T = (H :- B), copy_term(H-B, L), numbervars(L, 0, _) .", "expand_term((x --> " + br + ", y), T), T = (H :- B), copy_term(H-B, L), numbervars(L, 0, _) ."},
+				{"expand_term((x, " + str + " --> y), T), T = (H :- B), copy_term(H-B, L), numbervars(L, 0, _) .", "expand_term((x, " + br + " --> y), T), T = (H :- B), copy_term(H-B, L), numbervars(L, 0, _) ."},
+			}
+			for _, pr := range pairs {
+				if a, b := ask(pr[0]), ask(pr[1]); a != b {
+					bad(pr[0], a+"   but "+pr[1]+" gives "+b)
+					break
+				}
+			}
+			id++
+		}
+	}
+	return id
 }
